@@ -186,6 +186,7 @@ ITEMS = [
          ensures=[('frame', 'r is Ok ==> same_block_cfg(final(self), old(self))')]),
     dict(src=SR, path='impl YamlSerializer/fn write_scalar_prefix_if_anchor', trusted=True, props=[]),
     dict(src='src/wrapping.rs', path='fn is_block_scalar_safe', props=['C12', 'C20', 'C01'], optional=True, loop_rewrites=[(1, 'chars')],
+         bounded=dict(harness='bounded/is_block_scalar_safe.rs', items=[('src/wrapping.rs', 'fn is_block_scalar_safe')]),
          ensures=[('C12:text_with_a_carriage_return_or_nul_is_not_block_safe', 'r ==> block_text_ok(s@)'),
                   ('exactly_the_control_characters_other_than_line_feed_and_tab_are_refused', "r == (forall|i: int| 0 <= i < s@.len() ==> !(is_cc(#[trigger] s@[i]) && s@[i] != '\\n' && s@[i] != '\\t'))")],
          proofs=[dict(at='start', text='reveal(block_text_ok);')],
